@@ -296,6 +296,11 @@ func statusDeviation(s *Script, e *Expect, o *Obs) string {
 		if got != len(e.Msgs) {
 			return fmt.Sprintf("success reported with %d of %d response messages received", got, len(e.Msgs))
 		}
+		for i, r := range o.Recvs {
+			if r.Err == "" && i < len(e.Msgs) && string(r.Msg) != string(e.Msgs[i]) {
+				return fmt.Sprintf("success reported, but response message %d is not the one the handler sent (%d bytes received, %d bytes sent): the complete response was not received", i, len(r.Msg), len(e.Msgs[i]))
+			}
+		}
 		if e.SingleResp && s.Kind != kUnary && !o.Final.EOF {
 			return fmt.Sprintf("single-response success followed by %s instead of io.EOF", o.Final.Raw)
 		}
@@ -490,7 +495,7 @@ func init() { registerReplay("C02", propC02) }
 const c02Rule = "rapid-generated cooperative scripts (kind x request list x handler op order x final outcome: nil/status incl. out-of-range codes, odd messages, details/plain error/context errors/io.EOF) on inproc, httpgrpc.Server and HandleServices; " +
 	"oracle = model of the handler's returned status (cross-checked on grpc-go over bufconn when the SUT deviates) in both directions (equality; success implies handler success and complete response); " +
 	"plus GC cases (a collection cycle while the caller's last RecvMsg on the stream is blocked must not change the outcome) and fault sequences: successful HTTP replies cut short at evenly spaced byte offsets (every offset in the thorough tier) with clean and abrupt connection ends - never success, delivered messages an intact prefix; " +
-	"also generated since the seeded rounds: wrapped context and status errors (%w), errors carrying an OK status, handler metadata named like the protocol's own status headers (Spoof: the outcome must not change), payload sizes around powers of two; " +
+	"also generated since the seeded rounds: wrapped context and status errors (%w), errors carrying an OK status, handler metadata named like the protocol's own status headers (Spoof: the outcome must not change), payload sizes around powers of two, caller deadlines, replies without Content-Length (chunked by a middleware), failing unary handlers that return a response next to their error, responses the caller cannot take (in-process receive into another message type: never success), the per-method HTTP server form; on success the received messages are compared byte for byte with what the handler sent; " +
 	"non-trivial = fault case, or non-nil outcome with a message outside [A-Za-z ]*, or details, or an error after >=1 response; distinct by case hash"
 
 func TestC02(t *testing.T) {
